@@ -177,14 +177,6 @@ func boundary(c rawCfg) candidates {
 	if n, err := strconv.ParseUint(c.TProxyMark, 10, 32); err == nil {
 		k.marks = append(k.marks, n)
 	}
-	// keep out of ::ffff:0:0/96 (netip prints those in dotted form, outside the modelled address syntax)
-	keep := k.dst6[:0]
-	for _, a := range k.dst6 {
-		if !a.Is4In6() {
-			keep = append(keep, a)
-		}
-	}
-	k.dst6 = keep
 	var gs []string
 	for _, g := range k.gids {
 		if g != "*" {
@@ -525,6 +517,89 @@ func checkTproxyInbound(q parsedCfg, p packet, f fate, loopDst bool) string {
 	return ""
 }
 
+// intended: what an invocation means according to the documented contract of istio-iptables (flag help
+// texts, environment-variable documentation, FillConfigFromEnvironment's comments), written independently
+// of tools/common/config: defaults, proxy GID = proxy UID, owner-group / loopback variables, the pod's
+// address family (first usable address; with dual stack: IPv6 as soon as a usable IPv6 address exists;
+// loopback and link-local addresses are not usable), DNS servers from resolv.conf only for
+// REDIRECT_DNS without CAPTURE_ALL_DNS.
+func intended(e envCase) (rawCfg, bool) {
+	c := e.vals
+	def := func(p *string, d string) {
+		if *p == "" {
+			*p = d
+		}
+	}
+	def(&c.ProxyPort, "15001")
+	def(&c.InboundCapturePort, "15006")
+	def(&c.InboundTunnelPort, "15008")
+	def(&c.TProxyMark, "1337")
+	def(&c.ProxyUID, e.uid)
+	def(&c.ProxyGID, c.ProxyUID)
+	def(&c.OwnerGroupsInclude, "*")
+	def(&c.LoCidr, "127.0.0.1/32")
+	usable := []netip.Addr{}
+	for _, s := range e.addrs {
+		a, err := netip.ParseAddr(s)
+		if err != nil {
+			continue
+		}
+		a = a.Unmap()
+		if a.IsLoopback() || a.IsLinkLocalUnicast() || a.IsLinkLocalMulticast() {
+			continue
+		}
+		usable = append(usable, a)
+	}
+	if len(usable) == 0 {
+		return c, true
+	}
+	c.IPv6 = usable[0].Is6()
+	if e.dual {
+		for _, a := range usable {
+			if a.Is6() {
+				c.IPv6 = true
+			}
+		}
+	}
+	c.DNSV4, c.DNSV6 = nil, nil
+	if c.RedirectDNS && !c.CaptureAllDNS {
+		for _, s := range e.resolv {
+			if a, err := netip.ParseAddr(s); err == nil {
+				if a.Is4() {
+					c.DNSV4 = append(c.DNSV4, a.String())
+				} else {
+					c.DNSV6 = append(c.DNSV6, a.String())
+				}
+			}
+		}
+	}
+	return c, false
+}
+
+// diffRaw names the first field in which the configuration the code built differs from the intended one.
+func diffRaw(want, got rawCfg) string {
+	type f struct{ n, a, b string }
+	j := func(l []string) string { return strings.Join(l, ",") }
+	for _, x := range []f{
+		{"ProxyPort", want.ProxyPort, got.ProxyPort}, {"InboundCapturePort", want.InboundCapturePort, got.InboundCapturePort},
+		{"InboundTunnelPort", want.InboundTunnelPort, got.InboundTunnelPort}, {"ProxyUID", want.ProxyUID, got.ProxyUID},
+		{"ProxyGID", want.ProxyGID, got.ProxyGID}, {"Mode", want.Mode, got.Mode}, {"TProxyMark", want.TProxyMark, got.TProxyMark},
+		{"InboundInclude", want.InboundInclude, got.InboundInclude}, {"InboundExclude", want.InboundExclude, got.InboundExclude},
+		{"OwnerGroupsInclude", want.OwnerGroupsInclude, got.OwnerGroupsInclude}, {"OwnerGroupsExclude", want.OwnerGroupsExclude, got.OwnerGroupsExclude},
+		{"OutPortsInclude", want.OutPortsInclude, got.OutPortsInclude}, {"OutPortsExclude", want.OutPortsExclude, got.OutPortsExclude},
+		{"OutInclude", want.OutInclude, got.OutInclude}, {"OutExclude", want.OutExclude, got.OutExclude},
+		{"KubeVirt", want.KubeVirt, got.KubeVirt}, {"ExclIfs", want.ExclIfs, got.ExclIfs},
+		{"RedirectDNS", wire.B(want.RedirectDNS), wire.B(got.RedirectDNS)}, {"DropInvalid", wire.B(want.DropInvalid), wire.B(got.DropInvalid)},
+		{"CaptureAllDNS", wire.B(want.CaptureAllDNS), wire.B(got.CaptureAllDNS)}, {"EnableIPv6", wire.B(want.IPv6), wire.B(got.IPv6)},
+		{"DNSServersV4", j(want.DNSV4), j(got.DNSV4)}, {"DNSServersV6", j(want.DNSV6), j(got.DNSV6)}, {"LoopbackCidr", want.LoCidr, got.LoCidr},
+	} {
+		if x.a != x.b {
+			return x.n + ":want=" + wire.Enc(x.a) + ":got=" + wire.Enc(x.b)
+		}
+	}
+	return ""
+}
+
 func oracle(stream, in, outPath string) {
 	out := wire.Create(outPath)
 	defer out.Close()
@@ -558,14 +633,26 @@ func oracle(stream, in, outPath string) {
 				}
 				cur = runReal(c)
 			} else {
-				if len(t) != 27 {
-					continue
-				}
-				flags, ok := rawFromTokens(append([]string{"cfg"}, t[1:25]...))
+				e, ok := envCaseFromTokens(t)
 				if !ok {
 					continue
 				}
-				cur, c = runRealEnv(flags, t[10] != "~", t[11] != "~", t[24] != "~")
+				var filled rawCfg
+				cur, filled = runRealEnv(e)
+				// the policy is judged against the configuration the invocation MEANS (the documented
+				// contract, written down independently below), not against what the code made of it
+				want, wantErr := intended(e)
+				c = want
+				switch {
+				case wantErr && cur.status != "error:environment":
+					verdict = "FAIL config_contract:no-usable-address-accepted"
+				case !wantErr && cur.status == "error:environment":
+					verdict = "FAIL config_contract:environment-refused"
+				case !wantErr && cur.status != "crash":
+					if d := diffRaw(want, filled); d != "" && verdict == "" {
+						verdict = "FAIL config_contract:" + d + " via=" + e.viaToken()
+					}
+				}
 			}
 			rs = nil
 			if cur.status == "crash" && verdict == "" {
@@ -576,6 +663,16 @@ func oracle(stream, in, outPath string) {
 				q = parseForOracle(c)
 				if (rs.v4.err != "" || rs.v6.err != "") && verdict == "" {
 					verdict = "FAIL restore-input-rejected " + strings.ReplaceAll(rs.v4.err+rs.v6.err, " ", "_")
+				}
+				// Validate's limit: no rule may carry more than 64 owner-group matches
+				for _, l := range append(append([]string{}, cur.v4...), cur.v6...) {
+					if strings.Count(l, "--gid-owner") > 64 && verdict == "" {
+						verdict = "FAIL owner-groups-limit " + strconv.Itoa(strings.Count(l, "--gid-owner")) + "_matches_in_one_rule"
+					}
+				}
+				// IPv4 and IPv6 express the same policy: the v6 rule set exists exactly when IPv6 is enabled
+				if (len(cur.v6) > 0) != c.IPv6 && verdict == "" {
+					verdict = fmt.Sprintf("FAIL v4_v6_same_policy:v6-rules-present=%v-but-ipv6-intended=%v", len(cur.v6) > 0, c.IPv6)
 				}
 				// the restore input must be applied without flushing what is already in the tables
 				for _, x := range cur.cmds {
